@@ -144,10 +144,13 @@ CLAIMED = {
              "insensitive predicate (no output variable under output-robustness/-vacuity, no input variable under input-...) is "
              "replaced by its +-inf-by-satisfaction form (robustness) or by 0 (vacuity), that in_vars/out_vars as built bottom-up by "
              "the node constructors are the syntactic variable sets, that STANDARD ignores the declarations, and that the offline and "
-             "online IA monitors compute rho of the transformed formula (C01/C02). Correspondence: 5 semantics x random io "
-             "assignments on the real discrete offline/online/pastified and dense offline/online monitors vs the model.",
-        note="Lean kernel + standard axioms; the IA visitors are modelled as the standard visitors with the predicate override "
-             "(a static formula transformation), validated by correspondence; dense time by correspondence against rhoD; tie sampled.",
+             "online IA monitors compute rho of the transformed formula (C01/C02); for dense time (robustness semantics) the "
+             "interface-aware predicate of the offline visitor and of the online operation class is mirrored and proved to return "
+             "the dense semantics of the transformed formula (offline list algorithm; online monitor under every chunking). "
+             "Correspondence: 5 semantics x random io assignments on the real discrete offline/online/pastified and dense "
+             "offline/online monitors vs the model, and the dense lists sample by sample vs the mirrors.",
+        note="Lean kernel + standard axioms; the discrete IA override is translated from the source (GenIA); the dense one is a "
+             "hand-written mirror tied by exact correspondence; the vacuity override in dense time is compared with rhoD only.",
         technique="Lean 4 proof (formula transformation + C01/C02) + differential correspondence",
         design="DESIGN.md §4 C06"),
     "C04": dict(
